@@ -346,6 +346,7 @@ func sinkNames(ss []sink) string {
 
 func runC09(c *Ctx) {
 	p := c.P
+	checkOpenfilePassthrough(c, "R2")
 	pos := func(in ssa.Instruction) string { return p.Pos(in.Pos()) }
 	handle := p.Func("handlePacket")
 	worker := p.Func("(*Server).sftpServerWorker")
@@ -927,4 +928,34 @@ func checkExtendedReadonly(c *Ctx, prop string) {
 	case "C19":
 		c.check(unknownOK, "R6", "unknown extension is not refused by the read-only gate", p.Pos(m.Pos()), "SpecificPacket == nil ⇒ readonly() is true, so the request reaches the op-unsupported reply", why19)
 	}
+}
+
+// checkOpenfilePassthrough (C09.R2 / C05.R2): the open-flag tables are extracted from sshFxpOpenPacket.respond, and
+// the read-only gate classifies by the wire flags; both are sound only if the platform helper (*Server).openfile
+// hands the flag word (and the path and mode) it was given to os.OpenFile unchanged.
+func checkOpenfilePassthrough(c *Ctx, rule string) {
+	p := c.P
+	fn := p.Func("(*Server).openfile")
+	if fn == nil {
+		c.missing(rule, "(*Server).openfile")
+		return
+	}
+	c.looked("(*Server).openfile")
+	n := 0
+	eachInstr(fn, func(in ssa.Instruction) {
+		cc := callOf(in)
+		if cc == nil || !callIs(cc, "os.OpenFile") {
+			return
+		}
+		n++
+		okArgs := len(cc.Args) == 3
+		for i := 0; okArgs && i < 3; i++ {
+			if cc.Args[i] != ssa.Value(fn.Params[i+1]) {
+				okArgs = false
+			}
+		}
+		c.check(okArgs, rule, "openfile hands its arguments to os.OpenFile unchanged", p.Pos(in.Pos()), "os.OpenFile(path, flag, mode)",
+			"(*Server).openfile changes the path, flag word or mode on the way to os.OpenFile: the open-flag table and the read-only gate, which look at the wire flags, no longer describe what is opened (e.g. O_CREATE added behind the gate)")
+	})
+	c.check(n == 1, rule, "openfile opens with os.OpenFile", p.Pos(fn.Pos()), "one os.OpenFile call", fmt.Sprintf("%d os.OpenFile calls in (*Server).openfile", n))
 }
